@@ -76,7 +76,6 @@ func init() {
 	// the real host key callback with the prompt goroutine and scripted stdin
 	ops["c17.wrap"] = func(a []string) string {
 		state, trustAll := a[0], a[1] == "1"
-		answers := strings.ReplaceAll(a[2], ",", "\n") + "\n"
 		server, remote := "srv.example.org:2222", tcpAddr("10.1.2.3:2222")
 		key := hostKey(1)
 		otherLine := knownhosts.Line([]string{"other.example.org"}, hostKey(3))
@@ -96,12 +95,9 @@ func init() {
 		devnull, _ := os.OpenFile(os.DevNull, os.O_WRONLY, 0)
 		os.Stdin, os.Stdout = r, devnull
 		defer func() { os.Stdin, os.Stdout = savedIn, savedOut; r.Close(); devnull.Close() }()
-		cancelCase := a[2] == "CANCEL" // nobody answers; the client's context ends while the host is pending
-		if !cancelCase {
-			go func() { w.WriteString(answers); w.Close() }()
-		} else {
-			defer w.Close()
-		}
+		cancelCase := a[2] == "CANCEL"     // nobody answers; the client's context ends while the host is pending
+		rounds := strings.Split(a[2], "|") // several connection attempts through the SAME callback, one answer script each
+		defer w.Close()
 
 		throttle := make(chan struct{}, 1)
 		throttle <- struct{}{}
@@ -112,23 +108,34 @@ func init() {
 		ctx, cancel := context.WithCancel(context.Background())
 		defer cancel()
 		go cb.PromptAddHosts(ctx)
-		res := make(chan error, 1)
-		go func() { res <- cb.Wrap()(server, remote, key) }()
-		verdict := "timeout"
-		wait := 8 * time.Second
-		if cancelCase {
-			time.AfterFunc(300*time.Millisecond, cancel)
-			wait = 1800 * time.Millisecond
-		}
-		select {
-		case err := <-res:
-			if err == nil {
-				verdict = "proceed"
-			} else {
-				verdict = "refuse"
+		var verdicts []string
+		for _, answersOfRound := range rounds {
+			if !cancelCase {
+				go func(ans string) { w.WriteString(strings.ReplaceAll(ans, ",", "\n") + "\n") }(answersOfRound)
 			}
-		case <-time.After(wait):
+			res := make(chan error, 1)
+			go func() { res <- cb.Wrap()(server, remote, key) }()
+			verdict := "timeout"
+			wait := 8 * time.Second
+			if cancelCase {
+				time.AfterFunc(300*time.Millisecond, cancel)
+				wait = 1800 * time.Millisecond
+			}
+			select {
+			case err := <-res:
+				if err == nil {
+					verdict = "proceed"
+				} else {
+					verdict = "refuse"
+				}
+			case <-time.After(wait):
+			}
+			verdicts = append(verdicts, verdict)
+			if verdict == "timeout" {
+				break
+			}
 		}
+		verdict := strings.Join(verdicts, "|")
 		time.Sleep(30 * time.Millisecond) // let a trusting prompt finish its rename
 		now, _ := os.ReadFile(path)
 		recorded := strings.Contains(string(now), knownhosts.Line([]string{server}, key))
